@@ -612,3 +612,7 @@ MANIFEST_ENTRY = dict(
     note='Partial: geometry predicates are oracle booleans (contains => intersects), rasterisation/masking is a recording stub; one layer '
          'tree root(g(a,b),c), five request shapes; capability documents, legends and the demo service are outside the statement.',
 )
+
+# --- manifest text refreshed after rounds 6-8 (obligations added since the entry above was written)
+MANIFEST_ENTRY['text'] = MANIFEST_ENTRY['text'] + ' A limit given in another SRS than the request: the query point / rectangle is brought into the SRS of the limit (affine SRS stub, rectangle geometry stub).'
+META['assumptions'] = list(META.get('assumptions', [])) + ['limit-in-other-srs obligations: the projection is an axis-aligned affine map between two SRS stubs, the limit geometry a rectangle stub with interior/within/intersects semantics']
